@@ -203,6 +203,17 @@ def _run(ix, R):
             why.append('parses %s' % fmt(fl, pp.args[0]))
         rets = fl.of('return')
         r = one(rets, 'return')
+        # whatever the control flow, the object is built from the parsed keyword dictionary itself
+        parsed0 = fl.tab.atom('call', tuple(pp.args), extra=('fn:parse_priors',))
+        kw0 = fl.tab.atom('idx', (parsed0, fl.tab.const(1)))
+        ca0 = atom_of(fl, r.value)
+        if ca0 is not None and ca0.head == 'callexpr' and ca0.extra == ('**',) and not fl.tab.equal(ca0.args[1], kw0):
+            R.fail('4.create', 'ARG', site,
+                   'create_prior: the class whose name matches is called with exactly the keyword arguments parsed from the text',
+                   'constructor arguments are %s' % fmt(fl, ca0.args[1])[:120],
+                   'the prior is built with %s, not with the keyword dictionary parsed from the text: a value given in the '
+                   'input file can be replaced or dropped on the way' % fmt(fl, ca0.args[1])[:160], f.loc(r.node))
+            raise AnalysisError('constructor arguments are not the parsed ones; remaining obligations not evaluated')
         lp = one(r.loops, 'loop over prior classes')
         if fmt(fl, lp.iter_rf[0]) not in ('cf.priorKlasses', 'ClassFactory().priorKlasses',
                                           'alloc(ClassFactory(), cf#1).priorKlasses') and \
